@@ -16,6 +16,7 @@ func init() {
 			"announcements are attributed by strict sequencing (table) or by phantoms pinned through registrar overrides (pipeline); the pipeline is fed so that the station's load shedding never triggers",
 		},
 		Stages: []Stage{
+			{Name: "realprobe", Pkg: "./pkg/station/lib", Run: "^TestVerifC07RealProbe$", Drivers: []string{"lib"}, Files: []string{"_c07_realprobe"}, Netns: true, TimeoutQ: 5 * time.Minute, TimeoutT: 10 * time.Minute},
 			{Name: "table", Pkg: "./pkg/station/lib", Run: "^TestVerifC07Table$", Drivers: []string{"lib"}, TimeoutQ: 10 * time.Minute, TimeoutT: 40 * time.Minute},
 			{Name: "pipeline", Pkg: "./pkg/station/lib", Run: "^TestVerifC07Pipeline$", Drivers: []string{"lib"}, TimeoutQ: 10 * time.Minute, TimeoutT: 40 * time.Minute},
 		},
